@@ -27,6 +27,8 @@ func runC01(r *engine.Run) {
 	r.Rule("AGREE-fields", "see C14: writer and reader of each node encoding agree on the separator discipline and field order (a node that decodes to something other than what was stored makes lookups on a persistent store return another value)")
 	r.Rule("ERR-guard", "see C17: in the trie operations the branch taken when a call failed returns a non-nil error, and no early return hands back an error on the edge where it is nil")
 	r.Rule("ERR-dropped", "see C17: the error of every trie / store operation called by the trie operations is looked at")
+	r.Rule("AGREE-split", "see C02: a leaf's prefix and path split one key at one point (two entries whose leaves get the same prefix, path and value would share one stored node, and changing one breaks the other)")
+	r.Rule("WHO-prev", "see C03: a layered store never writes or deletes in the level below (an older version read through the lower store keeps all its nodes)")
 	r.NotDec = append(r.NotDec, "that lookups return the last stored value for every history (path arithmetic, slicing, which child is lifted)", "hex validation of Insert/Delete paths (outside the property's quantifier)")
 	exhU(r)
 	domSize(r)
@@ -37,6 +39,8 @@ func runC01(r *engine.Run) {
 	domLift(r, "DOM-lift")
 	agreeFields(r)
 	errGuard(r, "ERR-guard", "ERR-dropped", mptFuncs(r), 15)
+	agreeSplit(r)
+	whoPrev(r)
 }
 
 var nodeKinds = []string{"ExtensionNode", "FullNode", "LeafNode"}
@@ -454,7 +458,7 @@ func depAbsent(r *engine.Run) {
 			// candidate guards
 			var eqCalls []*ssa.Call
 			engine.Instrs(f, func(in ssa.Instruction) {
-				if bc, ok := in.(*ssa.Call); ok && extCalleeIs(bc, "bytes", "", "Equal") {
+				if bc, ok := in.(*ssa.Call); ok && isBytesEq(bc) {
 					a, b := stripCT(bc.Call.Args[0]), stripCT(bc.Call.Args[1])
 					if isFieldLoad("Path")(a) || isFieldLoad("Path")(b) {
 						eqCalls = append(eqCalls, bc)
